@@ -72,6 +72,16 @@ Theorem bbox_fuel_independent :
 Proof. exact bbox_fuel_mono. Qed.
 Print Assumptions bbox_fuel_independent.
 
+(* the two shifting loops (pyx 245-251) compute the closed form via ceilings *)
+Theorem shift_loops_closed_form :
+  forall tau : Q, 0 < tau ->
+  forall (fuel : nat) (bmin lo hi m lo1 hi1 m1 lo2 hi2 m2 : Q),
+    shift_up tau fuel bmin (lo, hi) m = Some (lo1, hi1, m1) ->
+    shift_down tau fuel bmin (lo1, hi1) m1 = Some (lo2, hi2, m2) ->
+    lo2 == fst (shift_closed tau bmin (lo, hi)) /\ hi2 == snd (shift_closed tau bmin (lo, hi)).
+Proof. exact shift_loops_closed. Qed.
+Print Assumptions shift_loops_closed_form.
+
 (* corners spread over more than a half-turn: the loop of pyx 219 never ends *)
 Example span_loop_diverges_example :
   span_loop 6 3 200 (0, 2, 4, 6) 0 = None.
